@@ -74,7 +74,7 @@ FILES = {
     r"^fn add_primary_to_secoundary\(", r"^fn add_secondary_to_primary\(", r"^fn add_secondary_to_secoundary\(",
     r"^pub async fn start_replication_supervisor\(",
  ],
- "network/http_ops.rs": [r"^pub fn start_http_client\("],
+ "network/http_ops.rs": [],
 }
 def generate(OUT):
     info = {"files": [], "dropped_items": [], "rewrites": ["std:: -> vstd::", "core::sync -> vstd::sync", "cfg(test) mod tests removed", "private items made pub(crate)-visible via pub"]}
@@ -90,9 +90,6 @@ def generate(OUT):
         if f == "replication_ops.rs":
             src = re.sub(r"^use async_std::.*\n", "", src, flags=re.M)
             src = re.sub(r"^use futures::(AsyncWriteExt|executor::block_on|join|io::AsyncBufReadExt);\n", "", src, flags=re.M)
-        if f == "network/http_ops.rs":
-            src = re.sub(r"^use tiny_http;\n", "", src, flags=re.M)
-            src = re.sub(r"^use vstd::thread;\n", "", src, flags=re.M)
         open(os.path.join(OUT, "src", f), "w").write(src)
         info["files"].append(f)
     open(OUT + "/src/storage/mod.rs", "w").write("pub mod common;\npub mod disk;\npub mod s3;\npub mod s3_partition;\n")
